@@ -1,6 +1,7 @@
 import Holpy.Common.Sexp
 import Holpy.C02.Model
 import Holpy.C02.Toy
+import Holpy.C02.Heap
 /-
 Line protocol for the C02 model (one s-expression in, one out):
   (check NOGAPS COMPUTEONLY LEVEL FUEL THMS PROOF) -> (ok TH TREE GAPS TRACE) | (err E)
@@ -45,10 +46,12 @@ partial def itemOf : Sexp → Option Item
 
 def proofOf (s : Sexp) : Option (List Item) := do (← s.toList?).mapM itemOf
 
+/-- The theorem table is a dict on the Python side: entries are installed one by one. -/
 def thmsOf (s : Sexp) : Option (List (String × Seq)) := do
-  (← s.toList?).mapM fun
+  let l ← (← s.toList?).mapM fun
     | .list [.atom n, q] => do some (n, ← seqOf q)
     | _ => none
+  some (l.foldl (fun acc p => upsert p.1 p.2 acc) [])
 
 def extOf : Sexp → Option Ext
   | .atom "other" => some .other
@@ -105,6 +108,28 @@ def handle (line : String) : String :=
           .list (r.gaps.map seqTo),
           .list (r.trace.map fun e => .list [posTo e.pos, ruleTo e.rule, optSeqTo e.computed, seqTo e.th])])
     | _, _, _, _, _, _ => "bad-op"
+  | some (.list [.atom "hcheck", ng, co, lvl, fuel, thms, hitems, hproofs, root]) =>
+    -- the heap walk: HITEMS = ((ID RULE ARG (ID…) TH SUBIDX|N)…) by index, HPROOFS = ((idx…)…)
+    let hitemOf : Sexp → Option HItem := fun
+      | .list [id, .atom rule, args, prevs, th, sub] => do
+        let sub ← match sub with
+          | .atom "N" => some none
+          | s => s.toNat?.map some
+        some ⟨← intsOf id, if rule == "%e" then "" else rule, ← argOf args, ← (← prevs.toList?).mapM intsOf, ← optSeqOf th, sub⟩
+      | _ => none
+    match ng.toBool?, co.toBool?, lvl.toNat?, fuel.toNat?, thmsOf thms, hitems.toList?, hproofs.toList?, root.toNat? with
+    | some ng, some co, some lvl, some fuel, some thms, some his, some hps, some root =>
+      match his.mapM hitemOf, hps.mapM natsOf with
+      | some items, some proofs =>
+        match hCheckProof (Toy.rules thms) ⟨ng, co, lvl⟩ fuel ⟨items, proofs⟩ root with
+        | .error e => toString (Sexp.list [.atom "err", .atom (errTo e)])
+        | .ok r => toString (Sexp.list [.atom "ok", optSeqTo r.th,
+            .list (r.walked.map fun w => .list [posTo w.1, optSeqTo ((r.st.items[w.2]?).bind (·.th))]),
+            .list (r.gaps.map seqTo),
+            .list (r.trace.map fun e => .list [posTo e.pos, ruleTo e.rule, optSeqTo e.computed, seqTo e.th]),
+            .list (r.walked.map fun w => .list [posTo w.1, Sexp.ofNat w.2])])
+      | _, _ => "bad-op"
+    | _, _, _, _, _, _, _, _ => "bad-op"
   | some (.list [.atom "extend", fuel, thms, exts]) =>
     match fuel.toNat?, thmsOf thms, exts.toList? with
     | some fuel, some thms, some exts =>
